@@ -651,9 +651,40 @@ def compare(f: Formula, g: Formula, assume: Formula = FTrue, domain: str = 'int'
     return None
 
 
+def _keys_of(f: Formula):
+    return {a.base if isinstance(a, ACmp) else a for a in atoms_of(f)}
+
+
+def _relevant(conjuncts: List[Formula], seed_keys: set) -> List[Formula]:
+    """Conjuncts connected (through shared comparison bases / atoms) to the seed; the others are independent of it in
+    the region model and cannot contribute to an implication."""
+    keys = set(seed_keys)
+    pool = [(c, _keys_of(c)) for c in conjuncts]
+    out = []
+    changed = True
+    while changed:
+        changed = False
+        rest = []
+        for c, ks in pool:
+            if ks & keys:
+                out.append(c)
+                keys |= ks
+                changed = True
+            else:
+                rest.append((c, ks))
+        pool = rest
+    return out
+
+
 def implies(f: Formula, g: Formula, assume: Formula = FTrue, domain='int'):
     """None if f => g under assume, else a counterexample."""
-    return compare(f_or(f_not(f), g), FTrue, assume, domain)
+    seed = _keys_of(g)
+    fparts = list(f.parts) if isinstance(f, FAnd) else [f]
+    aparts = list(assume.parts) if isinstance(assume, FAnd) else [assume]
+    rel = _relevant(fparts + aparts, seed)
+    f2 = f_and(*[c for c in fparts if c in rel])
+    a2 = f_and(*[c for c in aparts if c in rel])
+    return compare(f_or(f_not(f2), g), FTrue, a2, domain)
 
 
 def term_symbols(t, acc=None):
